@@ -112,7 +112,13 @@ func c12GenCase(r *vfRand, adv bool) *c01In {
 		// variants sharing host, method and path (= the cache key) or colliding with it
 		for v := r.Intn(3); v > 0; v-- {
 			c := q
-			switch r.Intn(5) {
+			switch r.Intn(6) {
+			case 5: // same decoded path, other wire encoding (plain <-> percent-encoded)
+				if q.RawPath != "" {
+					c.RawPath = ""
+				} else {
+					c.RawPath = c01EncodePath(r, q.Path)
+				}
 			case 0: // other client
 				if filtNum > 0 {
 					remote, hs := c01GenRemote(r)
